@@ -165,6 +165,15 @@ def main():
         d = float(ff.delta())
         events.append({"kind": "delta", "series": series, "ref": int(ref), "trial": int(trial),
                        "sign": int(np.sign(d)), "delta": dy(np.float32(d))})
+    # sizes as the library itself stores them (integer bit counts from compute_model_size), large enough that a
+    # trial differing by a few bits is only told apart in double precision
+    ff = FFmod.ForgivingFactor(8, 8, 2.0)
+    ref = 33570824
+    ff.reference_size = np.int64(ref)
+    for trial in (ref // 4, ref - 3, ref - 1, ref, ref + 1, ref + 2, 2 * ref):
+      ff.trial_size = np.int64(trial)
+      d = float(ff.delta())
+      events.append({"kind": "delta", "series": 3, "ref": int(ref), "trial": int(trial), "sign": int(np.sign(d)), "delta": dy(np.float32(d))})
     m = ref_model()
     hm = AutoQKHyperModel(m, metrics=["acc"], target=target, limit=dict({k: list(v) for k, v in LIMIT.items()}),
                           layer_indexes=None, quantization_config=TABLE, tune_filters="none", tune_filters_exceptions="")
